@@ -42,6 +42,7 @@ var (
 	c12batchEnt    = core.RegCounter("c12.batch_entries")
 	c12batchMixed  = core.RegCounter("c12.batches_mixing_valid_and_invalid")
 	c12batchBig    = core.RegCounter("c12.batches_with_95_or_more_entries")
+	c12grown       = core.RegCounter("c12.batches_grown_after_a_verdict_and_finished_again")
 	c12again       = core.RegCounter("c12.batches_finished_again_without_reset")
 	c12batchReset  = core.RegCounter("c12.batch_verifier_reused_after_reset")
 	c12batchEmpty  = core.RegCounter("c12.empty_batches")
@@ -985,6 +986,26 @@ func c12BatchHistory(r *core.Run, e *Env, pool []*c12Tuple) {
 				doV()
 			} else {
 				doBO()
+			}
+		}
+		// ... and it can grow after a verdict
+		if n > 0 && n < 80 && t.W(4) == 0 && len(r.Main.Fails()) == 0 {
+			for k := 1 + t.W(3); k > 0; k-- {
+				tp := pool[t.W(len(pool))]
+				bv.Add(tp.lpk, tp.src.transcript(t.W(2) == 1), tp.lsig)
+				want = append(want, tp.want)
+				all = all && tp.want
+				n++
+				r.Count(c12batchEnt)
+			}
+			r.Count(c12grown)
+			if t.W(2) == 0 {
+				doV()
+			} else {
+				doBO()
+				if len(r.Main.Fails()) == 0 {
+					doV()
+				}
 			}
 		}
 	}
